@@ -556,6 +556,16 @@ impl Scenario for Dual {
             // a release Set 2 rejects although it decodes the same physical key's press: Set 2 can
             // express this key, so "only Set 1 knows the code" does not excuse it
             let mut iso_dis = lists_disagree(&s2, &s1);
+            // the conversion table the statement cites says this Set 2 sequence is key K, Set 1
+            // decodes its translation as K, and Set 2 rejects it: K is a key both sets are meant to
+            // express, so "only Set 1 knows the code" does not excuse Set 2's error
+            if iso_dis.is_none() && plain {
+                if let (Some(Res::Err(_)), Some(Res::Ev(k1, _))) = (s2.last(), s1.last()) {
+                    if env.tables.set2[pfx as usize % 3][code as usize] == Some(*k1) {
+                        iso_dis = Some(s2.len() - 1);
+                    }
+                }
+            }
             if iso_dis.is_none() && brk && plain {
                 if let (Some(Res::Err(_)), Some(Res::Ev(k1, KeyState::Up))) = (s2.last(), s1.last()) {
                     let mut fm = DynSet::new(2);
